@@ -73,8 +73,10 @@ class SubProgress(HtmlControl):
         [],
         id=self.element_id(),
         styles=styles,
-        css_classes=['sub-progress', utils.camel_to_snake(self.name, '-')]
-        + self.css_classes,
+        css_classes=[
+            'sub-progress',
+            Html.escape(utils.camel_to_snake(self.name, '-')),
+        ] + self.css_classes,
     )
 
   def increment(self, delta: int = 1):
